@@ -8,6 +8,7 @@
 mod api;
 mod gen;
 mod monitors;
+mod rawfmt;
 mod refmodel;
 mod ucd;
 mod util;
@@ -25,6 +26,8 @@ pub struct Env {
     pub tier: Tier,
     pub seed: u64,
     pub out_dir: std::path::PathBuf,
+    /// (index, count): this process handles the cases with id % count == index (C15)
+    pub shard: (usize, usize),
     d6: OnceLock<ucd::Data6>,
     d16: OnceLock<ucd::Data16>,
     pools: OnceLock<gen::Pools>,
@@ -43,6 +46,18 @@ impl Env {
     }
     pub fn var(&self) -> &gen::Variants {
         self.var.get_or_init(|| gen::Variants::build(self.pools(), self.d16()))
+    }
+    pub fn replay_env(base: &Env, seed: u64) -> Env {
+        Env {
+            tier: base.tier,
+            seed,
+            out_dir: base.out_dir.clone(),
+            shard: (0, 1),
+            d6: OnceLock::new(),
+            d16: OnceLock::new(),
+            pools: OnceLock::new(),
+            var: OnceLock::new(),
+        }
     }
     pub fn quick(&self) -> bool {
         self.tier == Tier::Quick
@@ -70,6 +85,7 @@ fn main() {
     let mut out = None;
     let mut rop = None;
     let mut rcase = None;
+    let mut shard = (0usize, 1usize);
     let mut i = 2;
     while i < args.len() {
         let v = args.get(i + 1).cloned();
@@ -86,6 +102,11 @@ fn main() {
             }
             "--seed" => seed = v.and_then(|s| s.parse().ok()).unwrap_or(0),
             "--out" => out = v,
+            "--shard" => {
+                if let Some((a, b)) = v.as_deref().and_then(|x| x.split_once('/')) {
+                    shard = (a.parse().unwrap_or(0), b.parse::<usize>().unwrap_or(1).max(1));
+                }
+            }
             "--replay-op" => rop = v,
             "--replay-case" => rcase = v,
             other => {
@@ -104,6 +125,7 @@ fn main() {
         tier,
         seed,
         out_dir: std::path::Path::new(&out).parent().map(|p| p.to_path_buf()).unwrap_or_default(),
+        shard,
         d6: OnceLock::new(),
         d16: OnceLock::new(),
         pools: OnceLock::new(),
